@@ -163,16 +163,17 @@ func (r *AliasingConsistencyRule) checkTextBased(ctx *linter.Context) ([]linter.
 	}
 
 	// Check for inconsistency: using full table names and aliases mixed
+	// Simple heuristic: alias is short, table name is long. Only the shortest
+	// alias matters, so it is found once rather than searched for per table.
+	shortestAlias := -1
+	for alias := range definedAliases {
+		if shortestAlias < 0 || len(alias) < shortestAlias {
+			shortestAlias = len(alias)
+		}
+	}
 	for tableName, definedLine := range fullTableNames {
 		// Check if this table has an alias
-		hasAlias := false
-		for alias := range definedAliases {
-			// Simple heuristic: alias is short, table name is long
-			if len(alias) < len(tableName) {
-				hasAlias = true
-				break
-			}
-		}
+		hasAlias := shortestAlias >= 0 && shortestAlias < len(tableName)
 
 		// Check if table name is used in qualified references
 		if usedQualifiedRefs[tableName] && hasAlias {
